@@ -13,7 +13,7 @@ const pHTTP2 = "golang.org/x/net/http2"
 
 func init() {
 	props["C08"] = c08
-	floors["C08"] = map[string]int{"C08.R1": 10, "C08.R2": 29, "C08.R3": 2, "C08.R4": 20, "C08.R5": 10, "C08.R6": 2, "C08.R7": 1}
+	floors["C08"] = map[string]int{"C08.R1": 10, "C08.R2": 29, "C08.R3": 2, "C08.R4": 20, "C08.R5": 10, "C08.R6": 2, "C08.R7": 1, "C08.R8": 15}
 }
 
 // frameCases maps each asserted frame type name in the dispatcher to the
@@ -467,6 +467,11 @@ func c08(r *Report) {
 		}
 	})
 
+	r.Guard("C08.R8", "frames queued behind flow control are still delivered, in frames the receiver accepts: every window credit is applied and wakes the queue; payload sizes respect the receiver's maximum frame size (same obligations as C09.R4/R5)", func() {
+		flowWakeRules(r)
+		frameSizeRules(r)
+	})
+
 	r.Guard("C08.R7", "the connection preface is read completely before it is compared", func() {
 		fp := r.Use("h2", "forwardPreface")
 		if fp == nil {
@@ -477,7 +482,10 @@ func c08(r *Report) {
 		if len(eq) == 1 {
 			for _, c := range plainCalls(fp, "io.ReadFull", "io.ReadAtLeast") {
 				same := func(a, b ssa.Value) bool {
-					return anyIn(w.backSlice(a, flowOpt{}), func(v ssa.Value) bool { _, isMk := v.(*ssa.MakeSlice); return isMk && anyIn(w.backSlice(b, flowOpt{}), func(x ssa.Value) bool { return x == v }) })
+					return anyIn(w.backSlice(a, flowOpt{}), func(v ssa.Value) bool {
+						_, isMk := v.(*ssa.MakeSlice)
+						return isMk && anyIn(w.backSlice(b, flowOpt{}), func(x ssa.Value) bool { return x == v })
+					})
 				}
 				if G(fp).Before(c, eq[0]) && (same(c.Call.Args[1], eq[0].Call.Args[0]) || same(c.Call.Args[1], eq[0].Call.Args[1])) {
 					ok = true
